@@ -1050,6 +1050,8 @@ func (rn *runner) runBehaviour(b behaviour) {
 	smC, gsC := newConsumer("StateMachine"), newConsumer("Gossip")
 	// the rounds the mirror left by a nil commit, with the votes that justified it, until gossip saw them
 	var pendingNil []tmconsensus.VersionedRoundView
+	// nil-voted rounds that were still undelivered when the mirror recorded the next one (the gossip view manager has one slot)
+	superseded := map[[2]uint64]bool{}
 	// diverged: the real code left the model's prediction; the rest of the behaviour is a free run
 	diverged := false
 
@@ -1718,6 +1720,9 @@ func (rn *runner) runBehaviour(b behaviour) {
 		rn.stateKeys[jsFull(got)] = struct{}{}
 		rn.trace.Emit(vc.M{"beh": b.ID, "step": i, "op": st.Op, "res": gotRes, "st": got})
 		if prevK != nil && k.NilVoted != nil && (prevK.NilVoted == nil || prevK.NilVoted.Round != k.NilVoted.Round || prevK.NilVoted.Height != k.NilVoted.Height) {
+			for _, pn := range pendingNil {
+				superseded[[2]uint64{pn.Height, uint64(pn.Round)}] = true
+			}
 			pendingNil = append(pendingNil, k.NilVoted.Clone())
 		}
 		if st.Op == "Restart" || st.Op == "Boot" {
@@ -1775,8 +1780,12 @@ func (rn *runner) runBehaviour(b behaviour) {
 		gsC.current(w, &k.C, "Quiescence", "committing", &cv)
 	}
 	for _, pn := range pendingNil {
-		cv = append(cv, viol{"C11", "ExitVotesDeliveredBeforeDrop", "Quiescence", "nilVotedNeverSent",
-			fmt.Sprintf("round %d/%d ended in a nil commit but its final precommits never reached gossip", pn.Height, pn.Round)})
+		cl, why := "nilVotedNeverSent", ""
+		if superseded[[2]uint64{pn.Height, uint64(pn.Round)}] {
+			cl, why = "nilVotedNeverSent:superseded", " (the next round ended in a nil commit too before gossip had read this one: the view manager's single slot was overwritten)"
+		}
+		cv = append(cv, viol{"C11", "ExitVotesDeliveredBeforeDrop", "Quiescence", cl,
+			fmt.Sprintf("round %d/%d ended in a nil commit but its final precommits never reached gossip%s", pn.Height, pn.Round, why)})
 	}
 	if k.SMReH > 0 {
 		// the state machine is entitled to the view of the round it is in, when the mirror still has it
